@@ -63,8 +63,8 @@ func valid(f *facts, c *sCase) (bool, string) {
 	if len(tx.Script) == 0 {
 		return false, "empty script"
 	}
-	if !wellFormedScript(tx.Script) {
-		return false, "script malformed for the VM"
+	if ok, why := scriptWellFormed(tx.Script); !ok {
+		return false, "script malformed for the VM: " + why
 	}
 	if tx.SystemFee < 0 || tx.NetworkFee < 0 {
 		return false, "negative fee"
@@ -278,18 +278,6 @@ func pushes(s []byte) ([][]byte, bool) {
 		s = s[66:]
 	}
 	return out, true
-}
-
-// wellFormedScript knows the scripts of the menu: the malformed ones are
-// listed explicitly, every other script of the menu is a sequence of complete
-// instructions.
-func wellFormedScript(s []byte) bool {
-	for _, m := range malformedScripts() {
-		if string(m.s) == string(s) {
-			return false
-		}
-	}
-	return true
 }
 
 type namedScript struct {
